@@ -283,6 +283,15 @@ func runCheck(prop, tier string) int {
 	if tier == "thorough" && spec.WallBudget != nil {
 		units = orderForBudget(units, spec.Units("quick", seed, sh))
 	}
+	if *flagOnly != "" {
+		var keep []Unit
+		for _, u := range units {
+			if strings.Contains(u.Entry+"|"+strings.Join(u.Args, "|"), *flagOnly) {
+				keep = append(keep, u)
+			}
+		}
+		units = keep
+	}
 	for _, u := range units {
 		if sh.entry(u.Entry) == nil {
 			fmt.Printf("INCONCLUSIVE property=%s harness entry %s missing\n", prop, u.Entry)
@@ -580,6 +589,12 @@ func runCheck(prop, tier string) int {
 		if strings.HasPrefix(why, "engine error") {
 			inconclusive = true
 			inconclusiveWhy = append(inconclusiveWhy, fmt.Sprintf("executor failure on %d paths: %s", n, clip(why, 200)))
+		}
+		// code the encoder has no model for: the property is not decided on those paths, which is not
+		// the same as a budget running out (reported as a reduced bound)
+		if strings.HasPrefix(why, "unsupported") {
+			inconclusive = true
+			inconclusiveWhy = append(inconclusiveWhy, fmt.Sprintf("the encoder cannot execute the code on %d paths: %s", n, clip(why, 200)))
 		}
 	}
 	if len(secondDisagree) > 0 {
